@@ -929,6 +929,7 @@ def rule_r4(repo: Repo, res: Result) -> None:
     if child_ok is not None:
         res.add("C04.R4", f"{tag}::every scanned module becomes a node", child_ok, "every element of the module list becomes a node" if child_ok else f"not every scanned module becomes a node: {child_why}", where(e0.fi, e0.node) if e0 else where(init, init.node), kind="structural")
     # consecutive inherits edges
+    order = {id(ev): i for i, ev in enumerate(tr.events)}
     inherit_edges = [(e, a, b, inh) for e, a, b, inh in edge_events if inh is not None and not is_const(inh, False)]
     best = None
     unreadable: list = []
@@ -954,6 +955,10 @@ def rule_r4(repo: Repo, res: Result) -> None:
         okc, why = unconditional(e)
         if not okc:
             problems.append(f"the edge creation is not unconditional: {why}")
+        # the edge is only added between existing nodes: the parent's node must be created before, not after the edge is requested
+        same_step = [ne for ne, na in node_events if (pn := _sym_pos(names, na)) is not None and _rebase(pn, pa[0]) is not None and _rebase(pn, pa[0])[:3] == pa[:3]]
+        if same_step and all(order[id(ne)] > order[id(e)] for ne in same_step) and any(_is_node_test(t_, graph) for k_ in atoms_of(f_and(e.pc)) if (t_ := sx.atoms.get(k_)) is not None):
+            problems.append("the hierarchy edge is requested before the parent's node is created: the edge is skipped because one of its ends is not a node yet")
         cand = (len(problems), e, problems)
         if best is None or cand[0] < best[0]:
             best = cand
